@@ -44,6 +44,7 @@ pub fn sim_plan(rng: &mut Rng, faulty: bool) -> SimPlan {
         max_steps: 200_000,
         stall_after_recv_permille: after_recv,
         step_cost_ns: 0,
+        cpus: 0,
     }
 }
 
@@ -1451,6 +1452,14 @@ pub fn gen_plan(prop: &str, seed: u64, variant: u64) -> Plan {
         // the default-features build runs the property's general family instead
         p = gen_p_family(prop, seed, &profile_for(prop));
     }
+    // the host: an eighth of the runs see a machine with 1, 2 or 3 CPUs (derived from the seed, not
+    // drawn, so that the plans themselves stay what they were)
+    p.sim.cpus = match (seed >> 9) % 24 {
+        0 => 1,
+        1 => 2,
+        2 => 3,
+        _ => 0,
+    };
     // the builder recipe (constructor, order of setters) varies with the run
     if !matches!(p.cfg.keys, KeyMode::Typed { .. }) {
         p.cfg.recipe = ((variant / 3) % 8) as u8;
